@@ -31,7 +31,7 @@ Matches(m, e) ==
   /\ m.t = e.t /\ m.k = e.k
   /\ CASE e.k \in {"call", "ret"} -> m.op = e.op /\ m.x = e.x
        [] e.k \in {"eload", "epub"} -> m.x = e.x /\ m.n = e.n
-       [] e.k = "eleave" -> m.x = e.x
+       [] e.k \in {"eleave", "enest", "lnest"} -> m.x = e.x
        [] e.k = "tick" -> m.n = e.n
        [] e.k = "take" -> m.n = e.n /\ m.vals = e.vals
        [] e.k = "reclaim" -> m.x = e.x
